@@ -275,6 +275,11 @@ class Interp:
         """Interpret repository function object ``fn`` (a plain function)."""
         node, cls, filename = front.func_ast(fn)
         qual = f"{fn.__module__}.{fn.__qualname__}"
+        for dec in getattr(node, "decorator_list", []):
+            # decorators are dropped by the extraction; that is only sound for the ones known not to change what a call does
+            dtxt = ast.unparse(dec.func if isinstance(dec, ast.Call) else dec)
+            if not (dtxt.startswith("click.") or dtxt.startswith("main.") or dtxt in front.TRANSPARENT_DECORATORS):
+                raise OutOfReach(f"decorator @{dtxt} on {qual} is not in the list of decorators the extraction may drop")
         if fn.__name__.startswith("__") and not fn.__name__.endswith("__") and "." in fn.__qualname__:
             clsname = fn.__qualname__.rsplit(".", 1)[0].rsplit(".", 1)[-1]
             qual = f"{fn.__module__}.{fn.__qualname__.rsplit('.', 1)[0]}._{clsname.lstrip('_')}{fn.__name__}"
@@ -284,6 +289,7 @@ class Interp:
             return contract.at_call(self.E, *args, **kwargs)
         if self.depth > self.max_depth:
             raise OutOfReach(f"recursion depth exceeded in {qual}")
+        self.ctx.ghost.setdefault("$interpreted", set()).add(qual)      # which repository bodies this path executed (evidence / mutation analysis)
         pycls = None
         if cls is not None:
             # the real class object (for super() and name mangling)
@@ -513,6 +519,18 @@ class Interp:
         tag = f"loop{key[1]}"
         for name, c in spec.inv(E, frame.locals):
             ctx.require(f"{tag}:init:{name}", c)
+        entry_pre = dict(frame.locals)
+
+        def entry_conditions(new_state, check_prefix):
+            # entry conditions of the abstraction itself: every loop-carried name is bound before the loop, and a list
+            # accumulator that the spec replaces by its summary either starts empty or is kept as the prefix of the summary
+            for nm in sorted(new_state):
+                if nm not in entry_pre:
+                    ctx.require(f"{tag}:entry:{nm}-bound-before-the-loop", False)
+                    continue
+                pv, xv = entry_pre[nm], new_state[nm]
+                if check_prefix and isinstance(pv, list) and pv and isinstance(xv, list):
+                    ctx.require(f"{tag}:entry:{nm}-prefix-kept", len(xv) >= len(pv) and all(a is b for a, b in zip(pv, xv)))
         modes = self.loop_mode or []
         depth = self.loop_mode_used or 0
         mode = modes[depth] if depth < len(modes) else None
@@ -522,7 +540,9 @@ class Interp:
             if innermost:
                 ctx.notes.append("loop-mode-entered")
             case = mode[2]
-            frame.locals.update(spec.carried(E, frame.locals, coll))
+            carried = spec.carried(E, frame.locals, coll)
+            entry_conditions(carried, False)
+            frame.locals.update(carried)
             for name, c in spec.inv(E, frame.locals):
                 ctx.assume(c)
             elem = spec.element(E, case, coll)
@@ -557,7 +577,9 @@ class Interp:
             for name, c in spec.step(E, pre, frame.locals, elem, case):
                 ctx.require(f"{tag}:step[{case}]:{name}", c)
             raise LoopBodyDone()
-        frame.locals.update(spec.exit_state(E, frame.locals, coll))
+        exit_state = spec.exit_state(E, frame.locals, coll)
+        entry_conditions(exit_state, True)
+        frame.locals.update(exit_state)
         for name, c in spec.inv(E, frame.locals):
             ctx.assume(c)
         spec.after(E, frame.locals, coll)
